@@ -153,3 +153,72 @@ pub mod presolve {
         crate::solver::SupportedConeT::new_collapsed(cones)
     }
 }
+
+/// C11: the crate-private block count / fill utilities of `algebra/csc/utils.rs`
+/// (thin call-through wrappers) and the KKT assembly hooks.
+pub mod c11 {
+    use crate::algebra::{CscMatrix, MatrixShape, MatrixTriangle};
+    pub use crate::solver::core::kktsolvers::direct::verif_hooks_kkt::*;
+
+    pub fn colcount_dense_triangle(K: &mut CscMatrix<f64>, initcol: usize, blockcols: usize, shape: MatrixTriangle) {
+        K.colcount_dense_triangle(initcol, blockcols, shape)
+    }
+    pub fn colcount_diag(K: &mut CscMatrix<f64>, initcol: usize, blockcols: usize) {
+        K.colcount_diag(initcol, blockcols)
+    }
+    pub fn colcount_missing_diag(K: &mut CscMatrix<f64>, M: &CscMatrix<f64>, initcol: usize) {
+        K.colcount_missing_diag(M, initcol)
+    }
+    pub fn colcount_colvec(K: &mut CscMatrix<f64>, n: usize, firstrow: usize, firstcol: usize) {
+        K.colcount_colvec(n, firstrow, firstcol)
+    }
+    pub fn colcount_rowvec(K: &mut CscMatrix<f64>, n: usize, firstrow: usize, firstcol: usize) {
+        K.colcount_rowvec(n, firstrow, firstcol)
+    }
+    pub fn colcount_block(K: &mut CscMatrix<f64>, M: &CscMatrix<f64>, initcol: usize, shape: MatrixShape) {
+        K.colcount_block(M, initcol, shape)
+    }
+    pub fn fill_colvec(K: &mut CscMatrix<f64>, vtoKKT: &mut [usize], initrow: usize, initcol: usize) {
+        K.fill_colvec(vtoKKT, initrow, initcol)
+    }
+    pub fn fill_rowvec(K: &mut CscMatrix<f64>, vtoKKT: &mut [usize], initrow: usize, initcol: usize) {
+        K.fill_rowvec(vtoKKT, initrow, initcol)
+    }
+    pub fn fill_block(
+        K: &mut CscMatrix<f64>,
+        M: &CscMatrix<f64>,
+        MtoKKT: &mut [usize],
+        initrow: usize,
+        initcol: usize,
+        shape: MatrixShape,
+    ) {
+        K.fill_block(M, MtoKKT, initrow, initcol, shape)
+    }
+    pub fn fill_dense_triangle(
+        K: &mut CscMatrix<f64>,
+        blocktoKKT: &mut [usize],
+        offset: usize,
+        blockdim: usize,
+        shape: MatrixTriangle,
+    ) {
+        K.fill_dense_triangle(blocktoKKT, offset, blockdim, shape)
+    }
+    pub fn fill_diag(K: &mut CscMatrix<f64>, diagtoKKT: &mut [usize], offset: usize, blockdim: usize) {
+        K.fill_diag(diagtoKKT, offset, blockdim)
+    }
+    pub fn fill_missing_diag(K: &mut CscMatrix<f64>, M: &CscMatrix<f64>, initcol: usize) {
+        K.fill_missing_diag(M, initcol)
+    }
+    pub fn colcount_to_colptr(K: &mut CscMatrix<f64>) {
+        K.colcount_to_colptr()
+    }
+    pub fn colptr_to_colcount(K: &mut CscMatrix<f64>) {
+        K.colptr_to_colcount()
+    }
+    pub fn backshift_colptrs(K: &mut CscMatrix<f64>) {
+        K.backshift_colptrs()
+    }
+    pub fn count_diagonal_entries(M: &CscMatrix<f64>, shape: MatrixTriangle) -> usize {
+        M.count_diagonal_entries(shape)
+    }
+}
